@@ -72,7 +72,11 @@ func (ip *Interp) declare(sc *scope, name string, v Value, konst bool, kind stri
 	if isPredefined(name) {
 		return ip.fault(&ZErr{Kind: "predefined", Msg: name})
 	}
-	if _, ok := sc.vars[name]; ok {
+	if b, ok := sc.vars[name]; ok {
+		if b.kind == "import" {
+			// is the program body "the same block" as its import section? not specified
+			panic(&Unspec{"declaring " + name + " over an imported name"})
+		}
 		return ip.fault(&ZErr{Code: 43, Kind: "redeclared", Msg: name})
 	}
 	// same body, enclosing non-block scope (params / loop variables / definitions): is that
@@ -293,6 +297,9 @@ func (ip *Interp) execStmt(st Stmt, sc *scope) (Value, bool, error) {
 	case Tagged:
 		ip.setLine(s.ID)
 		ip.Steps-- // the wrapper itself is not a statement
+		return ip.execStmt(s.S, sc)
+	case Verbatim:
+		ip.Steps--
 		return ip.execStmt(s.S, sc)
 	case Let:
 		for _, p := range s.Pairs {
